@@ -931,10 +931,43 @@ fn dump<'tcx>(tcx: TyCtxt<'tcx>, dir: &str) {
             }
             j.key("fields");
             j.arr_begin();
+            let mut prev_hi = if adt.is_enum() { tcx.def_span(v.def_id).hi() } else { span.hi() };
             for f in v.fields.iter() {
                 j.obj_begin();
                 j.key("name");
                 j.str(f.name.as_str());
+                // Raw attribute/doc tokens written in front of the field: derive helper attributes
+                // such as `#[account(..)]` are not kept in HIR, so the source between the end of the
+                // previous field and the start of this one (compiler spans) is recorded.
+                if let Some(fl) = f.did.as_local() {
+                    if let rustc_hir::Node::Field(fd) = tcx.hir_node_by_def_id(fl) {
+                        let fs = fd.span;
+                        let lo = fs.lo();
+                        let gap_ok = prev_hi <= lo && (lo.0 - prev_hi.0) < 4000;
+                        if gap_ok {
+                            let pre = Span::with_root_ctxt(prev_hi, lo);
+                            let txt = snippet(tcx, pre);
+                            if txt.contains("#[") {
+                                j.key("pre");
+                                j.str(&txt);
+                            }
+                        } else {
+                            // first field of a struct re-emitted by an attribute macro (`#[event_cpi]`):
+                            // the header span is the macro call site; record a window, cut in Python
+                            // at the struct's opening brace.
+                            let sm = tcx.sess.source_map();
+                            let f = sm.lookup_source_file(lo);
+                            let start = std::cmp::max(f.start_pos.0, lo.0.saturating_sub(1500));
+                            let pre = Span::with_root_ctxt(rustc_span::BytePos(start), lo);
+                            let txt = snippet(tcx, pre);
+                            if txt.contains("#[") {
+                                j.key("pre_window");
+                                j.str(&txt);
+                            }
+                        }
+                        prev_hi = fs.hi();
+                    }
+                }
                 let fty = tcx.type_of(f.did).instantiate_identity().skip_norm_wip();
                 j.key("ty");
                 j.str(&ty_str(fty));
